@@ -592,7 +592,7 @@ def pos_key(f):
 
 DEFECTS = ['none', 'none', 'drop1', 'dropk', 'drop_volume', 'drop_position', 'duplicate', 'misfiled_dup',
            'tie_straddle', 'gap', 'gap', 'rows', 'cols', 'spacing_lo', 'spacing_hi', 'orient_lo', 'orient_hi',
-           'nopix', 'collide', 'missing_key', 'extra_position', 'vec_uneven', 'bad_ordinate', 'vec_straddle', 'vec_straddle', 'vec_straddle', 'vec_move']
+           'nopix', 'collide', 'missing_key', 'extra_position', 'vec_uneven', 'bad_ordinate', 'vec_straddle', 'vec_straddle', 'vec_straddle', 'vec_move', 'pos_swap', 'pos_swap']
 
 
 def apply_defect(rng, cfg, files, defect):
@@ -711,6 +711,25 @@ def apply_defect(rng, cfg, files, defect):
             if 'RepetitionTime' in cfg['consts']:
                 f['tags']['RepetitionTime'] = 750.0
             files.append(f)
+    elif defect == 'pos_swap':
+        # two volumes trade slice positions: every position still occurs equally often overall and the tuples stay
+        # distinct (the moved files get a fresh time value inside their own volume's range), but one volume holds
+        # position j twice and the other position i twice
+        o_t = cfg['time_order']
+        if o_t is not None and o_t.get('abs') is None and T >= 2 and S >= 2 and not callable(cfg['tagrules'].get(o_t['key'])) \
+                and cfg['tagrules'].get(o_t['key']) in ('t', 'trev'):
+            tkey = o_t['key']
+            v = rng.randrange(V)
+            ta, tb = rng.sample(range(T), 2)
+            i, j = rng.sample(range(S), 2)
+            fa = [f for f in files if f['cell'] == [i, ta, v]][0]
+            fb = [f for f in files if f['cell'] == [j, tb, v]][0]
+            pa = [f for f in files if f['cell'] == [j, ta, v]][0]['ipp']
+            pb = [f for f in files if f['cell'] == [i, tb, v]][0]['ipp']
+            fa['ipp'], fb['ipp'] = list(pa), list(pb)
+            for f in (fa, fb):
+                f['tags'][tkey] = tag_value(tkey, _num(f['tags'][tkey]) - (36000 if tkey in TM_TAGS else 0) + 1)
+            note.update({'i': i, 'j': j})
     elif defect in ('vec_straddle', 'vec_move'):
         # files MOVED between vector components: the total still factors and every slice position still occurs
         # equally often, but per-vector counts are no longer multiples of S.  vec_straddle: the moved files come
